@@ -552,7 +552,7 @@ def emit_histories(chk, gen, thorough):
     runs = [("one", '{"x"}', 3, E1_CLASSES, '{"write"}'), ("one", '{"x"}', 2, CLASSES, '{"write"}'),
             ("two", '{"x", "y"}', 2, CLASSES, "{}")]
     if thorough:
-        runs = [("one", '{"x"}', 3, E1_CLASSES + ["equals"], '{"write", "rename"}'),
+        runs = [("one", '{"x"}', 3, E1_CLASSES, '{"write", "rename"}'),
                 ("one", '{"x"}', 2, CLASSES, '{"open", "write", "close", "rename"}'),
                 ("one", '{"x"}', 4, E1_CLASSES, "{}"), ("two", '{"x", "y"}', 2, CLASSES, "{}")]
     fam = {"one": {}, "two": {}}
